@@ -132,6 +132,8 @@ class GeometricMTF(SpotDiagram):
         Returns:
             ndarray: The MTF data for the field point.
         """
+        # rays that do not reach the image are no part of the spot
+        xi = xi[np.isfinite(xi)]
         A, edges = np.histogram(xi, bins=self.num_points+1)
         x = (edges[1:] + edges[:-1]) / 2
         dx = x[1] - x[0]
